@@ -17,7 +17,7 @@
 From SV Require Import Model.Common.
 From SV Require Model.Utf8 Model.Parser Model.Transforms Model.Routing Model.Serializer Model.PipelineSerializer
                Model.Packer Model.Framing Spec.SyslogSpec Spec.FramingSpec Spec.SerializerSpec Spec.MsgpackSpec
-               Proofs.ParserProofs Proofs.PipelineSerializerProofs.
+               Proofs.ParserProofs Proofs.PipelineSerializerProofs Proofs.TagTemplateProofs.
 From SV Require Import Model.Pipeline Proofs.PipelineProofs Proofs.PipelineWitnesses.
 
 (* 1. pipeline_total.  For every accepted configuration, every reachable state of the agent and of the connection
@@ -49,6 +49,13 @@ Theorem C07_initial_state :
 Proof. exact (fun O cfg H => conj (ginv_init O cfg) (fun g => cinv_new_conn O cfg g H)). Qed.
 Print Assumptions C07_initial_state.
 
+(* the tag condition of config_ok is what NewTagBuilder establishes (C06) *)
+Theorem C07_accepted_tag_template :
+  forall names t parts,
+  R.parse_template names t = Some parts -> Forall (TagTemplateProofs.part_wf (length names)) parts.
+Proof. exact accepted_tag_ok. Qed.
+Print Assumptions C07_accepted_tag_template.
+
 (* 1'. ... hence every sequence of records through one long-lived pipeline (repeats, valid/invalid interleaved) *)
 Theorem C07_pipeline_total_sequence :
   forall (O : T.oracles) cfg (inputs : list bytes) g c now clk,
@@ -71,6 +78,17 @@ Theorem C07_stream_total :
                    Forall (result_shape cfg) rs.
 Proof. exact conn_run_total. Qed.
 Print Assumptions C07_stream_total.
+
+(* the framing layer alone: after everything that can arrive, a record of maximal length still fits the line buffer or the
+   buffer is empty - Read is never called with an empty slice (C08_never_full for the listener's parameters) *)
+Theorem C07_reader_never_full :
+  forall cfg (evs : list F.event), (1 <= record_limit cfg)%nat ->
+  exists st' records,
+    F.run_ops F.trs (F.conn_ops evs) (F.new_mlr (c_linebuf cfg) (record_limit cfg)) [] = Ok (st', records) /\
+    (length (F.m_buf st') <= F.m_cap st')%nat /\
+    (F.m_limit st' <= F.m_cap st' - length (F.m_buf st') \/ F.m_buf st' = [])%nat.
+Proof. exact conn_reader_never_full. Qed.
+Print Assumptions C07_reader_never_full.
 
 (* 2'. ... and so does any number of connections one after the other (bad input, abrupt disconnect, NEW connection) *)
 Theorem C07_agent_total :
@@ -129,12 +147,17 @@ Theorem C07_passed_streams_decode :
   forall cfg res,
   result_shape cfg res ->
   (N.of_nat (length (c_schema cfg)) < 65535)%N ->
-  Forall (fun o => (N.of_nat (length (S.c_env (oc_ser o))) < 65536)%N) (c_outputs cfg) ->
   match res with
   | RPassed _ streams _ =>
       exists rec, Forall2 (fun o stream =>
-                     (N.of_nat (length stream) < 4294967296)%N ->
-                     MsgpackSpec.decode_all stream = Some (SerializerSpec.event_tree (c_schema cfg) (oc_ser o) rec, []))
+                     match oc_kind o with
+                     | OFluentd sc =>
+                       (N.of_nat (length (S.c_env sc)) < 65536)%N ->
+                       (N.of_nat (length stream) < 4294967296)%N ->
+                       stream <> [] /\
+                       MsgpackSpec.decode_all stream = Some (SerializerSpec.event_tree (c_schema cfg) sc rec, [])
+                     | ODatadog _ => True
+                     end)
                   (c_outputs cfg) streams
   | _ => True
   end.
@@ -228,3 +251,21 @@ Theorem C07_example :
   end.
 Proof. exact example_lemma. Qed.
 Print Assumptions C07_example.
+
+(* Non-vacuity for the shape of config_sample.yml - a fluentdForward AND a datadog output (json.Marshal as an oracle):
+   the configuration satisfies config_ok and the first example record is delivered to both outputs. *)
+Theorem C07_example_two_outputs :
+  config_ok O ex_cfg2 /\
+  match process_record O ex_cfg2 g_init (new_conn ex_cfg2) (1600000000, 0)%Z 0%Z rec_good1 with
+  | Ok (_, _, RPassed 0 [s1; s2] _) =>
+      s1 <> [] /\
+      (* level=notice; time=2020-01-02T03:04:05Z; source=src; log=hello REDACTED; timestamp=1577934245000; ddtags=t.appB *)
+      s2 = toy_json [(n_level, [110;111;116;105;99;101]%N);
+                     (n_time, [50;48;50;48;45;48;49;45;48;50;84;48;51;58;48;52;58;48;53;90]%N);
+                     (n_source, [115;114;99]%N);
+                     (n_log, [104;101;108;108;111;32;82;69;68;65;67;84;69;68]%N);
+                     (b_timestamp, [49;53;55;55;57;51;52;50;52;53;48;48;48]%N); (b_ddtags, [116;46;97;112;112;66]%N)]
+  | _ => False
+  end.
+Proof. exact ex2_run. Qed.
+Print Assumptions C07_example_two_outputs.
